@@ -257,6 +257,67 @@ class Run:
             self.in_sweep = False
         self.emit({"e": "sweep", "s": self.proj.state()})
 
+    def sweep_concurrent(self, at_snap=0, at_look=0) -> None:
+        """A recovery sweep with handlers running while it is under way: `at_snap` messages are delivered (in queue order)
+        after the sweep has read the workflow's rows and before its first queue look-up, `at_look` more after its
+        look-ups and before its push transaction.  The deliveries are nested inside the sweep at those statements (the
+        sweep holds no transaction there), which is what a second worker thread would do to it."""
+        state = {"phase": "read", "busy": False}
+        outer = Hooks.on_execute
+
+        def deliver_some(n) -> None:
+            """n: a number of deliveries in queue order, or a list of canonical message keys to deliver in that order"""
+            state["busy"] = True
+            self.in_sweep = False
+            Hooks.on_execute = outer
+            try:
+                for k in (range(n) if isinstance(n, int) else n):
+                    vis = self.visible()
+                    if not vis:
+                        break
+                    if isinstance(n, int):
+                        self.deliver(vis[0]["qid"])
+                    else:
+                        hit = [r for r in vis if r["key"] == k]
+                        if not hit:
+                            raise MachineryError(f"concurrent sweep: message {k} is not deliverable")
+                        self.deliver(hit[0]["qid"])
+            finally:
+                Hooks.on_execute = hook
+                self.in_sweep = True
+                state["busy"] = False
+
+        def hook(conn, sql, args):
+            if not state["busy"]:
+                head = sql.lstrip()[:6].upper()
+                flat = " ".join(sql.split())
+                if state["phase"] == "read" and "FROM queue_messages WHERE json_extract" in flat:
+                    state["phase"] = "look"
+                    self.emit({"e": "sweepsnap", "s": self.proj.state()})
+                    deliver_some(at_snap)
+                elif state["phase"] in ("read", "look") and head == "INSERT" and not conn.in_transaction:
+                    if state["phase"] == "read":
+                        self.emit({"e": "sweepsnap", "s": self.proj.state()})
+                        deliver_some(at_snap)
+                    state["phase"] = "push"
+                    self.emit({"e": "sweeplook", "s": self.proj.state()})
+                    deliver_some(at_look)
+            return outer(conn, sql, args) if outer else None
+
+        self.in_sweep = True
+        Hooks.on_execute = hook
+        try:
+            self.proc.run_recovery()
+        finally:
+            Hooks.on_execute = outer
+            self.in_sweep = False
+        if state["phase"] == "read":      # nothing to look up, nothing to push: the sweep was a pure read
+            self.emit({"e": "sweepsnap", "s": self.proj.state()})
+            state["phase"] = "look"
+        if state["phase"] == "look":      # look-ups (if any) said: everything is queued already
+            self.emit({"e": "sweeplook", "s": self.proj.state()})
+        self.emit({"e": "sweeppush", "s": self.proj.state()})
+
     def dlq_sweep(self) -> None:
         self.in_sweep = True
         try:
